@@ -324,6 +324,12 @@ class WalFnTr(t19.MulFnTr):
         out[-1] += ') in'
         return out
 
+    def st_expr(self, s, env):
+        c = s.value
+        if isinstance(c, ast.Call) and isinstance(c.func, ast.Name) and c.func.id in self.closures:
+            fail(s, 'call of a closure whose result is dropped')
+        return super().st_expr(s, env)
+
     def st_return(self, s, env):
         lines = super().st_return(s, env)
         if self.in_closure is None:
